@@ -100,10 +100,10 @@ Proof.
   apply negb_true_iff in H2. unfold step. rewrite He, Hd, H1, H2, H3. reflexivity.
 Qed.
 (* the second copy of a doubled channel-1 code changes nothing but previous_word, and consumes no frame *)
-Lemma doubled_once c w : c_err c = false -> is_dup c w = false -> ch1_code w = true -> c_err (step c w) = false ->
+Lemma doubled_once c w : c_err c = false -> is_dup c w = false -> ch1_code w = true ->
   step (step c w) w = with_prev (step c w) None /\ c_tc (step (step c w) w) = c_tc (step c w).
 Proof.
-  intros He Hd Hw He2. pose proof (prev_after_code c w He Hd Hw) as Hp.
+  intros He Hd Hw. assert (He2 : c_err (step c w) = false) by (rewrite noerr_step; exact He). pose proof (prev_after_code c w He Hd Hw) as Hp.
   assert (Hdup : is_dup (step c w) w = true).
   { unfold is_dup. rewrite Hp, Z.eqb_refl, value_div. cbn [andb]. apply chan1_is_code.
     unfold ch1_code in Hw. apply andb_true_iff in Hw as [_ Hw]. now apply Z.eqb_eq in Hw. }
